@@ -526,6 +526,26 @@ class Executor:
             out["con_viol"] = worst
         except Exception as e:  # noqa: BLE001
             out["con_viol_exc"] = type(e).__name__
+        # second opinion, independent of optyx's own expression objects: the constraints and the
+        # objective AS WRITTEN in the spec, evaluated by the harness's pure-Python semantics (a
+        # mis-built expression -- e.g. a.dot(Q @ b) silently turned into a'Qa -- agrees with itself)
+        if want <= set(vals) and all(isinstance(v, float) and v == v and abs(v) < 1e100 for v in vals.values()):
+            iw = None
+            for cname in sh["cons"]:
+                try:
+                    for j, v in enumerate(S.con_violations(spec, spec["cons"][cname], vals, sh["pv"])):
+                        if v == v and v > 1e-3 and (iw is None or v > iw[0]):
+                            iw = [v, cname, j]
+                except Exception:  # noqa: BLE001 - outside the evaluator's domain: no opinion
+                    pass
+            out["con_viol_written"] = iw
+            if sh["objective"] is not None:
+                try:
+                    ov = S.eval_expr(spec, spec["exprs"][sh["objective"]], vals, sh["pv"])
+                    if isinstance(ov, float) and ov == ov and abs(ov) < 1e100:
+                        out["obj_written"] = fl(ov)
+                except Exception:  # noqa: BLE001
+                    pass
         attrs = S.elem_attrs(sh)
         bworst = None
         for n, x in vals.items():
